@@ -1,0 +1,53 @@
+//go:build verif
+
+// Contracts for the deductive verifier in /verif (comment-only file).
+// Property C14, the part about ByteStream.Write framing: an upload reaches the
+// backend only if its first request starts at offset zero, every further
+// request continues exactly where the previous one ended, nothing follows a
+// request with finish_write, and the stream of data ends (io.EOF towards the
+// CAS validator) only after finish_write was seen.
+package grpcservers
+
+//@ pure wcrWF(r) = r.stream != nil && r.writeOffset >= 0 && r.writeOffset <= 4611686018427387904
+//@ func (*byteStreamWriteServerChunkReader).setRequest
+//@   requires request != nil && r.writeOffset >= 0 && r.writeOffset <= 4611686018427387904
+//@   modifies r.writeOffset, r.data, r.finishedWrite
+//@   ensures [contiguous] result == nil ==> request.WriteOffset == old(r.writeOffset) && !old(r.finishedWrite)
+//@         && r.writeOffset == old(r.writeOffset) + len(request.Data) && r.finishedWrite == request.FinishWrite
+//@   ensures [rejected-otherwise] result != nil ==> code(result) == InvalidArgument && result != io.EOF && unchanged(r.writeOffset) && unchanged(r.finishedWrite)
+//@ func (*byteStreamWriteServerChunkReader).Read
+//@   requires wcrWF(r)
+//@   ensures [end-only-after-finish-write] result1 == io.EOF ==> r.finishedWrite
+//@   ensures [offsets-never-go-back] r.writeOffset >= old(r.writeOffset)
+//@   ensures [no-data-with-an-error] result1 != nil ==> len(result0) == 0
+
+//@ func (*zstdWriteStreamReader).Read
+//@   requires r.stream != nil && r.nextOffset >= 0 && r.nextOffset <= 4611686018427387904
+//@   ensures [end-only-after-finish-write] err == io.EOF ==> r.finished
+//@   ensures [offsets-never-go-back] r.nextOffset >= old(r.nextOffset)
+//@   ensures [contiguous] r.nextOffset != old(r.nextOffset) ==> !old(r.finished) && len(old(r.pendingData)) == 0
+//@   ensures 0 <= n && n <= len(p)
+
+// Both upload paths hand the object to the backend only for a first request
+// at offset zero.
+//@ func (*byteStreamServer).writeIdentity
+//@   requires s.blobAccess != nil && stream != nil && request != nil
+//@   ensures [upload-starts-at-zero] baCalls(s.blobAccess) != old(baCalls(s.blobAccess)) ==> request.WriteOffset == 0
+//@ func (*byteStreamServer).writeZstd
+//@   requires s.blobAccess != nil && stream != nil && request != nil
+//@   ensures [upload-starts-at-zero] baCalls(s.blobAccess) != old(baCalls(s.blobAccess)) ==> request.WriteOffset == 0
+
+// ByteStream.Read, uncompressed: the object is opened at the requested offset
+// and streamed to its end; success is reported only after the source has
+// signalled end-of-file, and every chunk that was read has been sent exactly
+// once, in order (bytes sent == distance the source advanced).
+//@ ghost bsSent(ref) int
+//@ iface ByteStream_ReadServerSend.call
+//@   modifies nothing
+//@ func (*byteStreamServer).Read
+//@   requires s.blobAccess != nil && in != nil && out != nil
+//@   atcall Send bsSent(out) := bsSent(out) + len(readBuf)
+//@   ensures [success-only-at-end-of-object] result == nil && rcompressor(old(in.ResourceName)) == 0 ==> srcEOF(r) == 1
+//@   ensures [exact-suffix-from-the-requested-offset] result == nil && rcompressor(old(in.ResourceName)) == 0 ==>
+//@         bsSent(out) - old(bsSent(out)) == crPos(r) - old(in.ReadOffset)
+//@   loop 0 invariant r != nil && crClosed(r) == 0 && unchanged(in.ReadOffset) && bsSent(out) - old(bsSent(out)) == crPos(r) - in.ReadOffset
